@@ -458,3 +458,15 @@ ADDED6 = {
 }
 for _k, _v in ADDED6.items():
     PLAN[_k]["rule"] = PLAN[_k]["rule"] + "; " + _v
+
+# after the twelfth round of seeded changes
+ADDED7 = {
+    "C01": "a slice with one hugely negative right-hand side (-1e21...-1e30) in a nonnegative row; such a run is judged only if it ends Solved, and without the planted sandwich",
+    "C02": "a fifth of the dual-infeasible family carries equality rows orthogonal to the unbounded ray, symmetric cones only and loose inequalities",
+    "C07": "the point every run ends at must be bit-identical to the last or - after the insufficient-progress roll-back - the last-but-one iterate of that run, homogenisation scalars included",
+    "C11": "the Triu and Tril assemblies of one problem must put the t-th entry of every index map at mirrored coordinates",
+    "C14": "after a third-order correction the stored gradient and Hessian are bit for bit what they were, and a second correction at the same scaling point (other directions) is compared with the oracle as well",
+    "C15": "unit initialisation through the composite cone (every cone kind) on garbage-filled buffers must equal the result on zeroed buffers, be strictly interior and zero the zero-cone blocks",
+}
+for _k, _v in ADDED7.items():
+    PLAN[_k]["rule"] = PLAN[_k]["rule"] + "; " + _v
